@@ -1176,6 +1176,60 @@ theorem zero_dim (a b : Box 0) (p : Vec 0) :
   · rw [intersects_iff]; exact fun i => i.elim0
   · rw [contains_iff]; exact fun i => i.elim0
 
+/-! ## signed types: the functions that compute `size()` are undefined when it overflows -/
+
+theorem center_signed_overflow (t : Ty) (hs : t.signed = true) (b : Box n) (h : ¬ ∀ i : Fin n, t.Rep (b.max[i] - b.min[i])) :
+    center t b = .error .signedOverflow := by
+  unfold center
+  rw [size_signed_overflow t hs b h]
+  rfl
+
+theorem cornerPoints_signed_overflow (t : Ty) (hs : t.signed = true) (b : Box n) (h : ¬ ∀ i : Fin n, t.Rep (b.max[i] - b.min[i])) :
+    cornerPoints t b = .error .signedOverflow := by
+  unfold cornerPoints
+  rw [bitStrings_eq]
+  have hpos : 0 < 2 ^ n := Nat.two_pow_pos n
+  obtain ⟨m, hm⟩ : ∃ m, 2 ^ n = m + 1 := ⟨2 ^ n - 1, by omega⟩
+  rw [hm, List.range_succ_eq_map, List.map_cons, List.mapM_cons]
+  rw [size_signed_overflow t hs b h]
+  rfl
+
+theorem lt_signed_overflow (t : Ty) (hs : t.signed = true) (a b : Box n)
+    (h : ¬ (∀ i : Fin n, t.Rep (a.max[i] - a.min[i])) ∨ ¬ (∀ i : Fin n, t.Rep (b.max[i] - b.min[i]))) :
+    lt t a b = .error .signedOverflow := by
+  unfold lt
+  by_cases ha : ∀ i : Fin n, t.Rep (a.max[i] - a.min[i])
+  · have hb : ¬ ∀ i : Fin n, t.Rep (b.max[i] - b.min[i]) := by
+      rcases h with h | h
+      · exact absurd ha h
+      · exact h
+    rw [size_spec t a ha, size_signed_overflow t hs b hb]
+    rfl
+  · rw [size_signed_overflow t hs a ha]
+    rfl
+
+/-- `==` looks at the sizes only when the positions agree (`&&` short-circuits): with different positions it is defined even when a
+    size overflows, with equal positions it is not -/
+theorem eq_signed_overflow (t : Ty) (hs : t.signed = true) (a b : Box n)
+    (h : ¬ (∀ i : Fin n, t.Rep (a.max[i] - a.min[i])) ∨ ¬ (∀ i : Fin n, t.Rep (b.max[i] - b.min[i]))) :
+    eq t a b = if a.min = b.min then .error .signedOverflow else .ok false := by
+  unfold eq
+  by_cases hm : a.min = b.min
+  · rw [(vecEq_iff _ _).2 hm]
+    simp only [if_true, hm]
+    by_cases ha : ∀ i : Fin n, t.Rep (a.max[i] - a.min[i])
+    · have hb : ¬ ∀ i : Fin n, t.Rep (b.max[i] - b.min[i]) := by
+        rcases h with h | h
+        · exact absurd ha h
+        · exact h
+      rw [size_spec t a ha, size_signed_overflow t hs b hb]
+      rfl
+    · rw [size_signed_overflow t hs a ha]
+      rfl
+  · have : vecEq a.min b.min = false := by
+      rw [← Bool.not_eq_true, vecEq_iff]; exact hm
+    simp [this, hm, pure, Except.pure]
+
 /-! ## Non-vacuity and boundary conventions on concrete values -/
 
 private def bx (a b c d : Int) : Box 2 := ⟨#v[a, b], #v[c, d]⟩
